@@ -5,6 +5,7 @@ import (
 	metav1 "k8s.io/apimachinery/pkg/apis/meta/v1"
 
 	v1 "sigs.k8s.io/karpenter/pkg/apis/v1"
+	"sigs.k8s.io/karpenter/pkg/cloudprovider"
 	"sigs.k8s.io/karpenter/pkg/test"
 
 	"verifharness/kit"
@@ -75,4 +76,45 @@ func witnesses(c *kit.Ctx) {
 	dss[0].Spec.Template.Spec = corev1.PodSpec{Tolerations: []corev1.Toleration{{Operator: corev1.TolerationOpExists}}, Containers: []corev1.Container{{Name: "d", Image: "pause",
 		Ports: []corev1.ContainerPort{{HostPort: 8080, Protocol: corev1.ProtocolTCP}}, Resources: corev1.ResourceRequirements{Requests: sk.RLOf(100, 32, -1)}}}}
 	judgeWorld(c, &sk.World{Catalog: catalog, Pools: []*v1.NodePool{pool}, Nodes: nodes, DaemonSets: dss, Pods: []*corev1.Pod{p5}}, sk.RunCfg{Workers: 1}, -1, false)
+
+	// F14: daemonset with two OR-ed terms, (instance-type In [last]) OR (instance-type In [first]). Probing the first type
+	// drops the first term from the shared daemon pod, so the last type is judged daemon-free although the daemon runs there.
+	var cat2 []*cloudprovider.InstanceType
+	for seed := uint64(1); cat2 == nil; seed++ {
+		c2 := sk.GenCatalog(kit.NewRand(seed), 3)
+		ok := true
+		for _, it := range c2 {
+			ok = ok && len(it.Offerings.Available()) > 0 && len(it.Offerings.Available()) == len(it.Offerings)
+			for _, o := range it.Offerings {
+				ok = ok && o.CapacityOverride == nil && o.OverheadOverride == nil
+			}
+		}
+		if ok && allocCPU(c2[0]) < allocCPU(c2[2]) {
+			cat2 = c2
+		}
+	}
+	first, last := cat2[0], cat2[2]
+	ds14 := sk.GenDaemonSets(kit.NewRand(1), 1, &sk.World{Catalog: cat2})
+	ds14[0].Spec.Template.Spec = corev1.PodSpec{Tolerations: []corev1.Toleration{{Operator: corev1.TolerationOpExists}}, Containers: []corev1.Container{{Name: "d", Image: "pause",
+		Resources: corev1.ResourceRequirements{Requests: sk.RLOf(1000, 32, -1)}}},
+		Affinity: &corev1.Affinity{NodeAffinity: &corev1.NodeAffinity{RequiredDuringSchedulingIgnoredDuringExecution: &corev1.NodeSelector{NodeSelectorTerms: []corev1.NodeSelectorTerm{
+			{MatchExpressions: []corev1.NodeSelectorRequirement{expr(corev1.LabelInstanceTypeStable, corev1.NodeSelectorOpIn, last.Name)}},
+			{MatchExpressions: []corev1.NodeSelectorRequirement{expr(corev1.LabelInstanceTypeStable, corev1.NodeSelectorOpIn, first.Name)}}}}}}}
+	p6 := plainPod("w6", allocCPU(last))
+	judgeWorld(c, &sk.World{Catalog: cat2, Pools: []*v1.NodePool{pool}, DaemonSets: ds14, Pods: []*corev1.Pod{p6}}, sk.RunCfg{Workers: 1}, -1, false)
+	// F15: the pod introduces the custom key `ghost` on the claim (NotIn is allowed on an undefined key); the node will be
+	// labelled ghost=<number>, so the daemonset selecting `ghost Exists` runs there, but its overhead was judged against the pool
+	ds15 := sk.GenDaemonSets(kit.NewRand(1), 1, &sk.World{Catalog: cat2})
+	ds15[0].Spec.Template.Spec = corev1.PodSpec{Tolerations: []corev1.Toleration{{Operator: corev1.TolerationOpExists}}, Containers: []corev1.Container{{Name: "d", Image: "pause",
+		Resources: corev1.ResourceRequirements{Requests: sk.RLOf(1000, 32, -1)}}},
+		Affinity: &corev1.Affinity{NodeAffinity: &corev1.NodeAffinity{RequiredDuringSchedulingIgnoredDuringExecution: &corev1.NodeSelector{NodeSelectorTerms: []corev1.NodeSelectorTerm{
+			{MatchExpressions: []corev1.NodeSelectorRequirement{expr(sk.GhostKey, corev1.NodeSelectorOpExists)}}}}}}}
+	p7 := plainPod("w7", allocCPU(last))
+	required(p7, []corev1.NodeSelectorRequirement{expr(sk.GhostKey, corev1.NodeSelectorOpNotIn, "x")})
+	judgeWorld(c, &sk.World{Catalog: cat2, Pools: []*v1.NodePool{pool}, DaemonSets: ds15, Pods: []*corev1.Pod{p7}}, sk.RunCfg{Workers: 1}, -1, false)
+}
+
+func allocCPU(it *cloudprovider.InstanceType) int64 {
+	a := it.Allocatable()
+	return a.Cpu().MilliValue()
 }
